@@ -111,13 +111,19 @@ tries = 0
 while len(se_meta) < want_se and tries < 20 * want_se:
     tries += 1
     intvel = tries % 5 == 0
-    geom = snellexact.random_geometry(rng, integer_velocities=intvel)
+    normal_ = tries % 6 == 1             # every wall met exactly along its normal (walls tilted by whole degrees)
+    intsrc_ = normal_ and tries % 12 == 1
+    geom = snellexact.normal_incidence_geometry(rng, integer_source=intsrc_) if normal_ else \
+        snellexact.random_geometry(rng, integer_velocities=intvel)
     if geom is None:
         continue
+    intvel = intvel and not normal_
     d_tube = snellexact.tube_distance(geom["src"], geom["phi"], geom["walls"], geom["vels"], geom["last_len"])
     if d_tube is None or not (d_tube > 0):
         continue
-    path = snellexact.arim_path(geom, arim)
+    path = snellexact.arim_path(geom, arim, int_source=intsrc_)
+    if normal_:
+        chk.count(snell_exact_normal_incidence="integer-typed source" if intsrc_ else "float source")
     if intvel:
         # a hand-built FermatPath whose velocities are written as integers (Python int / numpy int64): the same numbers
         fp_ = path.to_fermat_path()
